@@ -413,7 +413,8 @@ Section ObjStm.
 
   Lemma close_R cat info st st' : close cat info st = Ok st' -> R st st'.
   Proof.
-    unfold Writer.close. destruct (strm st); [discriminate|].
+    intros Hc0; apply close_ok in Hc0; revert Hc0.
+    unfold Writer.close0. destruct (strm st); [discriminate|].
     intros H. binv H. destruct a as [croot st1]. binv Hk. binv Hk0. destruct a0 as [iref st5].
     cbv zeta in Hk. binv Hk. injection Hk0 as <-.
     eapply R_trans; [eapply alloc_R; eassumption|].
@@ -438,7 +439,8 @@ Section ObjStm.
 
   Lemma step_R st o st' : SInv st -> step st o = Ok st' -> R st st'.
   Proof.
-    intros SI. unfold Writer.step. destruct (closed st); [discriminate|]. destruct o.
+    intros SI Hs0; apply step_ok in Hs0; revert Hs0.
+    unfold Writer.step0. destruct (closed st); [discriminate|]. destruct o.
     - intros H. binv H. destruct a as [r st1]. injection Hk as <-. eapply alloc_R; eassumption.
     - apply put_R.
     - apply write_compressed_R; exact SI.
